@@ -10,6 +10,7 @@
 #include "cpu.h"
 #include "epoch.h"
 #include "garbage_collection.h"
+#include "verif_hook.h"
 
 namespace yakushima {
 
@@ -21,33 +22,39 @@ public:
      * @return false fail.
      */
     bool gain_the_right() {
+        YK_VP(k_run_load, this, 0, 0);
         bool expected(running_.load(std::memory_order_acquire));
         for (;;) {
             if (expected) { return false; }
             if (running_.compare_exchange_weak(expected, true,
                                                std::memory_order_acq_rel,
                                                std::memory_order_acquire)) {
+                YK_VP(k_run_cas, this, 0, 0);
                 return true;
             }
         }
     }
 
     [[nodiscard]] Epoch get_begin_epoch() const {
+        YK_VP(k_begin_load, this, 0, 0);
         return begin_epoch_.load(std::memory_order_acquire);
     }
 
     [[nodiscard]] garbage_collection& get_gc_info() { return gc_info_; }
 
     [[nodiscard]] bool get_running() const {
+        YK_VP(k_run_load, this, 0, 0);
         return running_.load(std::memory_order_acquire);
     }
 
     void set_begin_epoch(const Epoch epoch) {
         begin_epoch_.store(epoch, std::memory_order_relaxed);
+        YK_VP(k_begin_store, this, epoch, 0);
     }
 
     void set_running(const bool tf) {
         running_.store(tf, std::memory_order_relaxed);
+        YK_VP(k_run_store, this, tf, 0);
     }
 
 private:
